@@ -43,7 +43,7 @@ ASSUMPTIONS = ["asyncio Task/Lock/Semaphore/Event semantics are the real ones; o
 LEVEL_TEXT = ("for each generated scenario every single-fault position over the await points of the fault-free run is "
               "enumerated (kinds: OSError, never-completes, client EOF before/after); scenarios themselves are sampled")
 LEVEL_NOTE = "trusts lib/simloop.py + lib/simhandler.py (fakes) and asyncio itself; multi-fault combinations only as generated"
-QUICK_N, THOROUGH_N = 4_000, 150_000  # base scenarios (~45 faulted runs each are counted as evaluations; ~840 runs/s/core)
+QUICK_N, THOROUGH_N = 3_500, 150_000  # base scenarios (~45 faulted runs each are counted as evaluations; ~840 runs/s/core)
 MAX_POINTS = 48
 
 KINDS_IO = ("err", "hang", "ceof", "ceof_after")
@@ -284,6 +284,18 @@ def nontrivial(w, fault, label, ctx):
         ctx.cls("trivial:" + ("no-server" if nserv == 0 else "no-fault"))
     if max(w.net.max_open.values(), default=0) >= 5:
         ctx.cls("reached-5-open-to-one-address")
+    # history class: connections to an address are open, a connect to the SAME address fails/is cancelled, and
+    # afterwards enough further connections to it are requested to exceed five in total
+    for c in w.net.calls:
+        if c["result"] in ("err", "cancelled") and c["t_done"] is not None:
+            tf, addr = c["t_done"], c["address"]
+            still = sum(1 for o in w.net.calls if o["address"] == addr and o["writer"] is not None and o["writer"].opened_at <= tf
+                        and (o["writer"].closed_at is None or o["writer"].closed_at > tf))
+            ai = simhandler.ADDRS.index(addr)
+            later = sum(1 for r in w.trace if r[1] == "cmd" and r[2] == "open" and r[4] == ai and r[0] > tf)
+            if still >= 1 and still + later > 5:
+                ctx.cls("open+failed-connect+more-than-5-in-total-to-one-address")
+                break
     if any(_waiting_for_slot(w, i) for i in range(min(nserv, 12))) if nserv > 5 else False:
         ctx.cls("had-to-wait-for-slot")
 
